@@ -163,7 +163,21 @@ def random_regexp(rng, size, Sigma):
 
 
 # ------------------------------------------------------------------ TM
+def scanner_tm(rng):
+    """moves right over the input and decides at the first blank: the number of steps grows with the word length"""
+    Sigma = rng.choice([['a'], ['a', 'b']])
+    blank = '_'
+    delta = [['q0', a, 'q0' if rng.random() < 0.8 else 'q1', a, 'R'] for a in Sigma]
+    delta += [['q1', a, 'q0', a, 'R'] for a in Sigma]
+    delta.append(['q0', blank, 'qA', blank, rng.choice(['L', 'R'])])
+    if rng.random() < 0.5:
+        delta.append(['q1', blank, 'qA' if rng.random() < 0.5 else 'qR', blank, 'R'])
+    return {'Q': ['q0', 'q1', 'qA', 'qR'], 'Sigma': Sigma, 'Gamma': Sigma + [blank], 'delta': delta, 'q0': 'q0', 'qa': 'qA', 'qr': 'qR', 'blank': blank}
+
+
 def random_tm(rng, nmax=4, halting_start=0.1):
+    if rng.random() < 0.25:
+        return scanner_tm(rng)
     n = rng.randint(1, nmax)
     work = ['q%d' % i for i in range(n)]
     qa, qr = 'qA', 'qR'
@@ -190,12 +204,18 @@ def random_tm(rng, nmax=4, halting_start=0.1):
 UPPER = 'SABCDEFGHIJKLMNOPQRTUVWXYZ'
 
 
-def random_cfg(rng, nvars=None, Sigma=None, maxlen=3, cnf=False, simple=True):
-    """Simple-format grammar: single upper-case variables, lower-case terminals."""
+MULTI = ['S', 'A', 'BC', 'AB', 'C', 'B', 'AA', 'ABC', "p'q", 'S0']
+
+
+def random_cfg(rng, nvars=None, Sigma=None, maxlen=3, cnf=False, simple=True, multichar=False):
+    """Simple-format grammar: single upper-case variables, lower-case terminals (multichar: names whose concatenations are ambiguous)."""
     nv = nvars or rng.randint(1, 4)
     V = list(UPPER[:nv])
     if rng.random() < 0.2:
         V = rng.sample(list(UPPER), nv)
+    if multichar:
+        nv = max(nv, 3)
+        V = ['S'] + rng.sample(MULTI[1:], nv - 1)
     Sigma = Sigma or rng.choice([['a', 'b'], ['a'], ['a', 'b', 'c']])
     R = []
     aid = 0
@@ -258,3 +278,23 @@ def random_pda(rng, nmax=3, tmax=6, markers=False):
     F = [] if r < 0.08 else list(Q) if r < 0.2 else [q for q in Q if rng.random() < 0.5]
     d = [[p, a, u, sorted([list(t) for t in T])] for (p, a, u), T in delta.items()]
     return {'Q': Q, 'Sigma': Sigma, 'Gamma': Gamma, 'delta': d, 'q0': Q[0], 'F': F, 'eps': eps, 'dd': True}
+
+
+def ambiguous_cfg(rng):
+    """CNF grammar over multi-character variable names whose concatenations coincide: S -> X1 Y1 | X2 Y2 with X1+Y1 == X2+Y2"""
+    base = rng.choice(['ABC', 'ABCD', 'AAB', 'XYZ'])
+    cuts = rng.sample(range(1, len(base)), 2)
+    names = []
+    R = [['S', 0, [['v', base[:cuts[0]]], ['v', base[cuts[0]:]]]], ['S', 1, [['v', base[:cuts[1]]], ['v', base[cuts[1]:]]]]]
+    for c in cuts:
+        names += [base[:c], base[c:]]
+    names = sorted(set(names))
+    Sigma = ['a', 'b', 'c', 'd']
+    aid = 2
+    for i, n in enumerate(names):
+        R.append([n, aid, [['t', Sigma[i % 4]]]])
+        aid += 1
+        if rng.random() < 0.3:
+            R.append([n, aid, [['t', rng.choice(Sigma)]]])
+            aid += 1
+    return {'V': ['S'] + names, 'Sigma': Sigma, 'R': R, 'S': 'S'}
